@@ -125,8 +125,54 @@ func LazyState(p *load.Program, run *report.Run, pkgs []string, frozen map[strin
 				}
 				seen[key] = true
 				run.Count("kept-fields", 1)
+				// kept state that is a function of the call's own arguments, and is rebuilt whenever they differ
+				// from what it was built for, is a cache of a pure value: the parameters of the method that the
+				// construction reads, and whether the guard mentions every one of them
+				params := map[types.Object]bool{}
+				if c.fd.Type.Params != nil {
+					for _, f := range c.fd.Type.Params.List {
+						for _, n := range f.Names {
+							if o := info.ObjectOf(n); o != nil {
+								params[o] = true
+							}
+						}
+					}
+				}
+				built := map[types.Object]string{}
+				ast.Inspect(ifs.Body, func(m ast.Node) bool {
+					if as, ok := m.(*ast.AssignStmt); ok {
+						for i, l := range as.Lhs {
+							if ls, ok := ast.Unparen(l).(*ast.SelectorExpr); ok && info.ObjectOf(ls.Sel) == fld && i < len(as.Rhs) {
+								ast.Inspect(as.Rhs[i], func(q ast.Node) bool {
+									if id, ok := q.(*ast.Ident); ok && params[info.ObjectOf(id)] {
+										built[info.ObjectOf(id)] = id.Name
+									}
+									return true
+								})
+							}
+						}
+					}
+					return true
+				})
+				guardMentions := map[types.Object]bool{}
+				ast.Inspect(ifs.Cond, func(q ast.Node) bool {
+					if id, ok := q.(*ast.Ident); ok && params[info.ObjectOf(id)] {
+						guardMentions[info.ObjectOf(id)] = true
+					}
+					return true
+				})
+				keyed, missing := len(built) > 0, ""
+				for o, name := range built {
+					if !guardMentions[o] {
+						keyed, missing = false, name
+					}
+				}
 				if why, ok := frozen[key]; ok {
 					run.OK("kept-state-inventory", key, c.p.Rel(ifs.Pos()), "listed: "+why)
+				} else if keyed {
+					run.OK("kept-state-inventory", key, c.p.Rel(ifs.Pos()), "a cache of a value built from the call's arguments; the guard rebuilds it when they differ")
+				} else if missing != "" {
+					run.Violate("kept-state-inventory", key, c.p.Rel(ifs.Pos()), fmt.Sprintf("%s builds %s from its argument %s on first use and keeps it, but the test that decides whether to rebuild it does not look at %s: a later call with another %s works with the state built for the first one", c.name, key, missing, missing, missing), nil)
 				} else {
 					run.Undecided("kept-state-inventory", key, c.p.Rel(ifs.Pos()), fmt.Sprintf("%s creates %s on first use and keeps it: later calls on the object inherit its contents, and no rule covers what it holds then (not in the inventory of kept state)", c.name, key))
 				}
